@@ -201,6 +201,11 @@ func Resolve(all []*Op, p Params) *State {
 				if o.NextRecovery == c || consumed[o.NextRecovery] {
 					continue
 				}
+				// a recover that hands the commitment it consumes on as the next update commitment re-commits to the
+				// key it reveals just as well (the update chain would consume that commitment a second time)
+				if !badDelta(o.Delta) && o.NextUpdate == c {
+					continue
+				}
 			} else if !InWindow(o.From, o.Until, o.Time, p.deltaFor(o)) {
 				continue
 			}
